@@ -169,6 +169,9 @@ def run(ctx):
                     x2[j] = rng.uniform(0.3, 3) if rng.random() < 0.9 else -1.0
             b, ib = D(x2.reshape(shape))
             s, is_ = D(float(x.ravel()[k]))
+            # ... and a second element alone, through the same object (the elements of an array evaluated one after another)
+            k2 = rng.randrange(size)
+            s2, is2_ = D(float(x.ravel()[k2]))
         rep = dict(method=m, n=n, order=order, shape=list(shape), x=x.tolist(), kept=k, memory_layout=layout)
         ctx.keep('Derivative', a, **rep)
         if np.shape(a) != shape:
@@ -182,6 +185,11 @@ def run(ctx):
             if f2hex(ak) != f2hex(float(s)):
                 ctx.violation('an element evaluated alone as a scalar differs from the array result (real-step method)',
                               array=ak, scalar=float(s), **rep)
+            elif f2hex(float(np.ravel(a)[k2])) != f2hex(float(s2)) or \
+                    f2hex(float(np.ravel(ia.final_step)[k2])) != f2hex(float(np.ravel(is2_.final_step)[0])):
+                ctx.violation('a second element evaluated alone through the same object differs from the array result (value or final_step; '
+                              'real-step method)', array=float(np.ravel(a)[k2]), scalar=float(s2), second=k2,
+                              final_steps=[float(np.ravel(ia.final_step)[k2]), float(np.ravel(is2_.final_step)[0])], **rep)
         else:
             tol = 10 * (float(np.ravel(ia.error_estimate)[k]) + float(is_.error_estimate)) + 1e-10 * (1 + abs(ak))
             if not abs(ak - float(s)) <= tol:
